@@ -150,6 +150,13 @@ def Statement_xml_chardata_roundtrip : Prop :=
 def Statement_xml_attr_roundtrip : Prop :=
   ∀ (s rest : Str), s.all xmlChar = true → xmlReadAttr (quoteattr s ++ rest) = some (s, rest)
 
+/-- `serialize(format="xml", encoding=E)`: whatever the encoding can spell (`enc`, any predicate), character data written
+    by `_characters` and re-spelled by `XMLGenerator`'s `xmlcharrefreplace` error handler (`&#N;` for every character the
+    encoding lacks) is delivered unchanged. -/
+def Statement_xml_chardata_any_encoding : Prop :=
+  ∀ (enc : Char → Bool) (s rest : Str), s.all xmlChar = true →
+    xmlReadContent (xmlWriteTextEnc enc s ++ '<' :: rest) = some (s, '<' :: rest)
+
 /-! ### Theorems -/
 
 theorem json_text_roundtrip : Statement_json_text_roundtrip := fun ks s rest => jsonScan_jsonSpell ks s rest
@@ -258,6 +265,9 @@ theorem xml_chardata_roundtrip : Statement_xml_chardata_roundtrip :=
   fun s rest h => readText_writeText s h 0 rest
 
 theorem xml_attr_roundtrip : Statement_xml_attr_roundtrip := fun s rest h => xmlReadAttr_quoteattr s h rest
+
+theorem xml_chardata_any_encoding : Statement_xml_chardata_any_encoding :=
+  fun enc s rest h => readText_writeTextEnc enc s h 0 rest
 
 /-- known finding C16-K1 at the text level: the writer has no spelling for U+0001, the document is not well-formed -/
 theorem xml_chardata_witness : xmlReadContent (xmlWriteText ['\x01'] ++ ['<']) = none := by decide
